@@ -509,7 +509,26 @@ def make_shims(world):
     # ------------------------------------------------------------------ jax.lax
     def stop_gradient(x):
         W.trace.append(("stop_gradient", x, A._SITE[0]))
+        if getattr(W, "mark_stop_gradient", False):
+            # taint mode: every symbol that passes through stop_gradient is renamed sg(symbol), so a
+            # value reaching an output without the wrapper is visible in the output's term
+            return tree_map(_mark_sg, x)
         return tree_map(lambda a: A.ew1("stop_gradient", a), x)
+
+    def _mark_sg(a):
+        if a.elems is None:
+            return a
+        el = []
+        for e in a.elems:
+            if isinstance(e, Poly):
+                out = {}
+                for m, c in e.terms.items():
+                    m2 = tuple(sorted(sym_id(("sg", i)) for i in m))
+                    out[m2] = out.get(m2, 0) + c
+                el.append(Poly(out))
+            else:
+                el.append(e)
+        return Arr(a.shape, el, a.dtype, a.geo)
 
     class Precision(object):
         HIGH = "HIGH"
